@@ -1,7 +1,9 @@
 (* C06 — archives conform to format v1 as documented, in both directions.
-   Statements only; proofs are in theories/{GcmProofs,FormatProofs,FormatBridge,SrcTieFormat}.v. *)
+   Statements only; proofs are in theories/{GcmProofs,FormatProofs,FormatBridge,FormatScan,FormatContent,
+   FormatWriterBridge,FormatV1,SrcTieFormat}.v. *)
 From Coq Require Import String.
-From MLA Require Import Base Gcm GcmProofs Format FormatProofs FormatBridge SrcTieFormat InstGcm.
+From MLA Require Import Base Gcm GcmProofs Format FormatProofs FormatBridge FormatScan FormatContent FormatWriterBridge FormatV1 SrcTieFormat InstGcm.
+From MLA Require Blocks Writer RoundTripBlocks RoundTripWriter EncLayer EncWriter.
 From MLA.Concrete Require Import Aes Ghash GcmSpec.
 From MLA.Concrete Require Sha256 X25519.
 From MLAGen Require Src.
@@ -126,12 +128,9 @@ Theorem C06_aead_laws_gcm :
   (forall k n p, key32 k -> length n = 12%nat -> len (snd (aseal_gcm k n p)) = TAGLEN).
 Proof. exact (conj gcm_open_seal (conj gcm_len_ct gcm_len_tag)). Qed.
 
-(* format_decode_encode, partial: header, key wrap and chunked encryption of the canonical encoder are
-   undone exactly by the decoder (concrete AES-256-GCM, HKDF-SHA256, X25519), for every file list, chunk
-   size, key and nonce.  MISSING for the full statement: (1) decode_content (encode_content files) = Ok files
-   in general (block stream + index round trip; shown on instances below and exercised by Tie B);
-   (2) D-H commutativity is a hypothesis on the two key pairs; (3) reader = first recipient. *)
-Theorem C06_format_decode_encode_partial :
+(* the layers: header, key wrap and chunked encryption of the canonical encoder are undone exactly by the
+   decoder (concrete AES-256-GCM, HKDF-SHA256, X25519), for every file list, chunk size, key and nonce *)
+Theorem C06_format_layers_enc :
   forall CHUNK BLOCK unbr files eph rpub rpubs cpriv cands kd nonce8,
   0 < CHUNK ->
   X25519.x25519 cpriv (X25519.x25519_base eph) = X25519.x25519 eph rpub ->
@@ -140,11 +139,56 @@ Theorem C06_format_decode_encode_partial :
   decode_v1 CHUNK BLOCK unbr (encode_v1 CHUNK files true eph (rpub :: rpubs) kd nonce8) (cpriv :: cands)
   = decode_content Sha256.sha256 (encode_content Sha256.sha256 files).
 Proof. exact decode_encode_v1_enc_layers. Qed.
-Theorem C06_format_decode_encode_plain_partial :
+Theorem C06_format_layers_plain :
   forall CHUNK BLOCK unbr files eph rpubs kd nonce8 cands,
   decode_v1 CHUNK BLOCK unbr (encode_v1 CHUNK files false eph rpubs kd nonce8) cands
   = decode_content Sha256.sha256 (encode_content Sha256.sha256 files).
 Proof. exact decode_encode_v1_plain_layers. Qed.
+
+(* the content level: typed block stream + EndOfArchiveData + index, for ALL file lists with pairwise
+   distinct valid-UTF-8 names; contents are any bytes (empty included); the only size conditions are the
+   format's own (u64 positions, u32 index length) *)
+Theorem C06_wf_files_def : forall files,
+  wf_files files <->
+  NoDup (map fst files) /\ Forall (fun f => Blocks.utf8_valid (fst f) = true) files /\
+  stream_len files < 2 ^ 64 /\ index_len files < 2 ^ 32.
+Proof. intros files. reflexivity. Qed.
+Theorem C06_format_content_roundtrip : forall files, wf_files files ->
+  decode_content Sha256.sha256 (encode_content Sha256.sha256 files) = Ok (expected files).
+Proof. exact content_roundtrip_v1. Qed.
+(* the same for any hash with 32-byte output *)
+Theorem C06_format_content_roundtrip_anyhash : forall H, (forall x, len (H x) = 32) ->
+  forall files, wf_files files ->
+  decode_content H (encode_content H files) = Ok (map (fun f => (fst f, snd f, H (snd f))) files).
+Proof. exact format_content_roundtrip. Qed.
+
+(* format_decode_encode, FULL: decoder after canonical encoder = the files given.  Remaining hypotheses:
+   D-H commutativity on the two key pairs (curve mathematics, not proved in general), reader = first
+   recipient (the decoder takes the first key_i whose tag verifies: TagCollision caveat), < 2^32 chunks. *)
+Theorem C06_format_decode_encode :
+  forall CHUNK BLOCK unbr files eph rpub rpubs cpriv cands kd nonce8,
+  0 < CHUNK ->
+  X25519.x25519 cpriv (X25519.x25519_base eph) = X25519.x25519 eph rpub ->
+  length kd = 32%nat -> length nonce8 = 8%nat -> len rpubs < 2 ^ 63 ->
+  (len (encode_content Sha256.sha256 files) + CHUNK - 1) / CHUNK <= 2 ^ 32 ->
+  wf_files files ->
+  decode_v1 CHUNK BLOCK unbr (encode_v1 CHUNK files true eph (rpub :: rpubs) kd nonce8) (cpriv :: cands)
+  = Ok (expected files).
+Proof. exact decode_encode_v1_enc. Qed.
+Theorem C06_format_decode_encode_plain :
+  forall CHUNK BLOCK unbr files eph rpubs kd nonce8 cands,
+  wf_files files ->
+  decode_v1 CHUNK BLOCK unbr (encode_v1 CHUNK files false eph rpubs kd nonce8) cands = Ok (expected files).
+Proof. exact decode_encode_v1_plain. Qed.
+(* non-vacuity: the three files of the instances below (one of them empty) are well-formed *)
+Example C06_wf_files_nonvacuous : wf_files ex_files /\ expected ex_files = ex_expected ex_files.
+Proof.
+  split; [|reflexivity]. split; [|split; [|split]].
+  - vm_compute. repeat constructor; cbn [In]; intuition discriminate.
+  - vm_compute. repeat constructor.
+  - vm_compute. reflexivity.
+  - vm_compute. reflexivity.
+Qed.
 
 (* instances: the full round trip, everything computed in Coq (X25519 with the RFC 7748 key pairs) *)
 Example C06_roundtrip_plain_instance :
@@ -156,11 +200,131 @@ Example C06_roundtrip_enc_instance :
 Proof. vm_compute. split; reflexivity. Qed.
 
 (* ---- bridge: the independently written decoder reads what the writer MODEL writes ---- *)
-Theorem C06_format_decode_writer_partial :
-  forall CHUNK BLOCK dhkey_of aopen unbr FNMAX ops cands,
-  Format.decode CHUNK BLOCK Sha256.sha256 dhkey_of aopen unbr (model_archive_plain FNMAX ops) cands
-  = decode_content Sha256.sha256 (model_writer_out FNMAX ops).
-Proof. exact format_decode_writer_partial. Qed.
+(* the scanner on ANY block list whose per-file projections are FileStart FileContent* [EndOfFile],
+   however interleaved: one state per FileStart, in order *)
+Theorem C06_scan_any_interleaving : forall bl,
+  Forall fwf bl -> (forall id, file_ok (RoundTripBlocks.proj id bl)) ->
+  scan (S (length (fser_blocks bl ++ [BT_END]))) 0 (fser_blocks bl ++ [BT_END]) None [] = Ok (expect bl).
+Proof. exact scan_shapes. Qed.
+
+(* format_decode_writer, FULL: for every call list the writer model accepts (all results Ok, finalize
+   last), every footer iteration order, block tags = the source's: the decoder yields exactly, for each
+   started name in start order, the concatenation of the pieces appended and their SHA-256 *)
+Theorem C06_written_def : forall ops,
+  written Sha256.sha256 ops =
+  map (fun ni => (fst ni, RoundTripWriter.pieces 0 (snd ni) ops, Sha256.sha256 (RoundTripWriter.pieces 0 (snd ni) ops)))
+      (RoundTripWriter.started 0 ops).
+Proof. intros ops. reflexivity. Qed.
+Theorem C06_format_decode_writer_content :
+  forall FNMAX order ops sf rs,
+  (forall f, Permutation.Permutation (order f) f) ->
+  Writer.wrun FNMAX Src.BT_FileStart Src.BT_FileContent Src.BT_EndOfArchiveData Src.BT_EndOfFile Sha256.sha256 order
+              Writer.w_init (ops ++ [Writer.OFinalize]) = (sf, rs) ->
+  Forall (fun r => is_ok r = true) rs -> forallb RoundTripWriter.op_utf8 ops = true ->
+  len (Writer.w_out sf) < 2 ^ 64 -> len (Blocks.ser_footer_map (order (Writer.w_footer sf))) < 2 ^ 32 ->
+  decode_content Sha256.sha256 (Writer.w_out sf) = Ok (written Sha256.sha256 ops).
+Proof. exact decode_writer_v1_content. Qed.
+Theorem C06_format_decode_writer :
+  forall CHUNK BLOCK unbr FNMAX order ops sf rs cands,
+  (forall f, Permutation.Permutation (order f) f) ->
+  Writer.wrun FNMAX Src.BT_FileStart Src.BT_FileContent Src.BT_EndOfArchiveData Src.BT_EndOfFile Sha256.sha256 order
+              Writer.w_init (ops ++ [Writer.OFinalize]) = (sf, rs) ->
+  Forall (fun r => is_ok r = true) rs -> forallb RoundTripWriter.op_utf8 ops = true ->
+  len (Writer.w_out sf) < 2 ^ 64 -> len (Blocks.ser_footer_map (order (Writer.w_footer sf))) < 2 ^ 32 ->
+  decode_v1 CHUNK BLOCK unbr (src_header_plain ++ Writer.w_out sf) cands = Ok (written Sha256.sha256 ops).
+Proof. exact decode_writer_v1_plain. Qed.
+(* encrypted: the block stream, cut into ANY pieces, through the encryption WRITER model (write_all per
+   piece, finalize); its cipher parameters ks/tagc are AES-256-GCM under kd with the per-chunk nonces
+   (cipher_agrees: chunk_enc ks tagc j pt = ciphertext ++ tag of aseal_gcm kd (nonce8 . BE32 j) pt) *)
+Theorem C06_format_decode_writer_enc :
+  forall CHUNK BLOCK CIPHERBUF unbr FNMAX order ops sf rs ks tagc fuel pcs es eph rpub rpubs cpriv cands kd nonce8,
+  0 < CHUNK ->
+  (forall f, Permutation.Permutation (order f) f) ->
+  Writer.wrun FNMAX Src.BT_FileStart Src.BT_FileContent Src.BT_EndOfArchiveData Src.BT_EndOfFile Sha256.sha256 order
+              Writer.w_init (ops ++ [Writer.OFinalize]) = (sf, rs) ->
+  Forall (fun r => is_ok r = true) rs -> forallb RoundTripWriter.op_utf8 ops = true ->
+  len (Writer.w_out sf) < 2 ^ 64 -> len (Blocks.ser_footer_map (order (Writer.w_footer sf))) < 2 ^ 32 ->
+  concat pcs = Writer.w_out sf ->
+  EncWriter.ew_archive CHUNK CIPHERBUF ks tagc fuel pcs = Ok es ->
+  cipher_agrees CHUNK ks tagc aseal_gcm kd nonce8 ((len (Writer.w_out sf) + CHUNK - 1) / CHUNK) ->
+  X25519.x25519 cpriv (X25519.x25519_base eph) = X25519.x25519 eph rpub ->
+  length kd = 32%nat -> length nonce8 = 8%nat -> len rpubs < 2 ^ 63 ->
+  (len (Writer.w_out sf) + CHUNK - 1) / CHUNK <= 2 ^ 32 ->
+  decode_v1 CHUNK BLOCK unbr
+    (ser_header (mkH L_ENCRYPT (Some (mkEH (X25519.x25519_base eph)
+                  (wrap aseal_gcm kd (map (fun r => dhkey_x25519 eph r) (rpub :: rpubs))) nonce8)))
+     ++ EncLayer.ew_out es) (cpriv :: cands)
+  = Ok (written Sha256.sha256 ops).
+Proof. exact decode_writer_v1_enc. Qed.
+(* the cipher parameters of the encryption-layer model's instance (InstGcm.v: key stream table,
+   tag function over the expanded key) satisfy cipher_agrees: nothing is assumed about the cipher *)
+Theorem C06_gcm_cipher_agrees : forall CHUNK kd nonce8 n, length kd = 32%nat -> length nonce8 = 8%nat ->
+  cipher_agrees CHUNK (gcm_ks (gcm_tab (aes256_expand kd) nonce8 CHUNK n)) (gcm_tagc (aes256_expand kd) nonce8)
+                aseal_gcm kd nonce8 (N.of_nat n).
+Proof. exact FormatCipher.gcm_cipher_agrees. Qed.
+Theorem C06_format_decode_writer_enc_gcm :
+  forall CHUNK BLOCK CIPHERBUF unbr FNMAX order ops sf rs n fuel pcs es eph rpub rpubs cpriv cands kd nonce8,
+  0 < CHUNK ->
+  (forall f, Permutation.Permutation (order f) f) ->
+  Writer.wrun FNMAX Src.BT_FileStart Src.BT_FileContent Src.BT_EndOfArchiveData Src.BT_EndOfFile Sha256.sha256 order
+              Writer.w_init (ops ++ [Writer.OFinalize]) = (sf, rs) ->
+  Forall (fun r => is_ok r = true) rs -> forallb RoundTripWriter.op_utf8 ops = true ->
+  len (Writer.w_out sf) < 2 ^ 64 -> len (Blocks.ser_footer_map (order (Writer.w_footer sf))) < 2 ^ 32 ->
+  concat pcs = Writer.w_out sf ->
+  EncWriter.ew_archive CHUNK CIPHERBUF (gcm_ks (gcm_tab (aes256_expand kd) nonce8 CHUNK n))
+                       (gcm_tagc (aes256_expand kd) nonce8) fuel pcs = Ok es ->
+  (len (Writer.w_out sf) + CHUNK - 1) / CHUNK <= N.of_nat n ->
+  X25519.x25519 cpriv (X25519.x25519_base eph) = X25519.x25519 eph rpub ->
+  length kd = 32%nat -> length nonce8 = 8%nat -> len rpubs < 2 ^ 63 ->
+  (len (Writer.w_out sf) + CHUNK - 1) / CHUNK <= 2 ^ 32 ->
+  decode_v1 CHUNK BLOCK unbr
+    (ser_header (mkH L_ENCRYPT (Some (mkEH (X25519.x25519_base eph)
+                  (wrap aseal_gcm kd (map (fun r => dhkey_x25519 eph r) (rpub :: rpubs))) nonce8)))
+     ++ EncLayer.ew_out es) (cpriv :: cands)
+  = Ok (written Sha256.sha256 ops).
+Proof. exact decode_writer_v1_enc_gcm. Qed.
+(* non-vacuity: 3 files, two open at once with alternating pieces, add_file in between, footer in
+   reverse order: every hypothesis holds and the decoder's answer is the three files *)
+Example C06_decode_writer_nonvacuous :
+  decode_v1 64 256 no_brotli (src_header_plain ++ Writer.w_out ex2_sf) [] = Ok (written Sha256.sha256 ex2_ops)
+  /\ written Sha256.sha256 ex2_ops = ex_expected ex_ops_files.
+Proof.
+  split; [|vm_compute; reflexivity].
+  apply (C06_format_decode_writer 64 256 no_brotli 48 ex2_order ex2_ops ex2_sf ex2_rs [] ex2_order_perm).
+  - apply surjective_pairing.
+  - vm_compute. repeat constructor.
+  - vm_compute. reflexivity.
+  - vm_compute. reflexivity.
+  - vm_compute. reflexivity.
+Qed.
+(* non-vacuity of the encrypted bridge: the same call list, its block stream in four pieces (one empty,
+   cuts inside chunks) through the encryption writer with AES-256-GCM (CHUNK 64, CIPHERBUF 24), key wrapped
+   for Bob with Alice's ephemeral scalar (RFC 7748 6.1): the writer succeeds, every hypothesis holds, Bob reads
+   the three files *)
+Example C06_decode_writer_enc_nonvacuous :
+  exists es, ex2_enc = Ok es /\
+  decode_v1 64 256 no_brotli (ex2_header ++ EncLayer.ew_out es) [X25519.bob_sk] = Ok (written Sha256.sha256 ex2_ops).
+Proof.
+  assert (Hes : exists es, ex2_enc = Ok es) by (vm_compute; eexists; reflexivity).
+  destruct Hes as [es Hes]. exists es. split; [exact Hes|].
+  apply (C06_format_decode_writer_enc_gcm 64 256 24 no_brotli 48 ex2_order ex2_ops ex2_sf ex2_rs ex2_ntab 1000%nat
+           ex2_pcs es X25519.alice_sk X25519.bob_pk [] X25519.bob_sk [] ex_kd ex_nonce8).
+  - reflexivity.
+  - exact ex2_order_perm.
+  - apply surjective_pairing.
+  - vm_compute. repeat constructor.
+  - vm_compute. reflexivity.
+  - vm_compute. reflexivity.
+  - vm_compute. reflexivity.
+  - vm_compute. reflexivity.
+  - exact Hes.
+  - vm_compute. discriminate.
+  - rewrite X25519.x25519_kat_rfc7748_6_1_alice, X25519.x25519_kat_rfc7748_6_1_shared_a. exact X25519.x25519_kat_rfc7748_6_1_shared_b.
+  - vm_compute. reflexivity.
+  - vm_compute. reflexivity.
+  - vm_compute. reflexivity.
+  - vm_compute. discriminate.
+Qed.
 (* instances: interleaved calls; layer-less, and encrypted (EncLayer.enc_format over InstGcm's AES-GCM,
    key wrapped for the RFC 7748 pair, reader in oracle mode for X25519) *)
 Example C06_decode_writer_plain_instance :
@@ -169,3 +333,14 @@ Proof. vm_compute. reflexivity. Qed.
 Example C06_decode_writer_enc_instance :
   decode_v1_dh 64 256 no_brotli (model_archive_enc ex_ops) [X25519.alice_bob_shared] = Ok (ex_expected ex_ops_files).
 Proof. vm_compute. reflexivity. Qed.
+
+Print Assumptions C06_format_content_roundtrip.
+Print Assumptions C06_format_content_roundtrip_anyhash.
+Print Assumptions C06_format_decode_encode.
+Print Assumptions C06_format_decode_encode_plain.
+Print Assumptions C06_scan_any_interleaving.
+Print Assumptions C06_format_decode_writer_content.
+Print Assumptions C06_format_decode_writer.
+Print Assumptions C06_format_decode_writer_enc.
+Print Assumptions C06_gcm_cipher_agrees.
+Print Assumptions C06_format_decode_writer_enc_gcm.
